@@ -23,7 +23,7 @@ RankSeq(rank) == [i \in 1..N |-> rank[KeySeq[i]]]
 
 \* root arguments. Keys outside the graph are legal and ignored by the code.
 RootSetsEmitted == IF Full THEN SUBSET Keys
-                   ELSE {RootsOf(nodes, deps), nodes} \cup {{k} : k \in Keys}
+                   ELSE {RootsOf(nodes, deps), nodes} \cup {{k} : k \in IF N <= 4 THEN Keys ELSE {1, N}}
 RootSetsChecked == RootSetsEmitted
 RootSeqs(S) == IF N <= 4 THEN {Asc(S), Desc(S)} ELSE {Asc(S)}   \* prune_by takes its roots in the given order
 Stops == SUBSET nodes
